@@ -2,7 +2,7 @@
 import re
 
 from mirlib import AnchorMissing, path_matches, op_place
-from helpers import aggregates, field_accesses, vexpr, sources_of, calls_matching
+from helpers import aggregates, must_pass, field_accesses, vexpr, sources_of, calls_matching
 import levels
 
 EXPLANATION = (
@@ -253,6 +253,34 @@ def r_allow_accepted_where_lints_are_scoped(r, prog):
         r.ok('allow is rejected only on %s, which never own the scope of a lint' % ', '.join(sorted(rejected)))
     r.floor(1)
 
+def r_every_lint_is_looked_up(r, prog):
+    """into_updated decides the level of every lint by looking up its own element, file and the command line. It may not return before it has
+    walked all diagnostics: a shortcut taken from a summary of the configuration (nothing on the command line, no file-level attribute) skips
+    the attributes on definitions and members, which are consulted only inside the walk."""
+    f = prog.fn('slicec::diagnostics::diagnostic::Diagnostics::into_updated')
+    loops = [lp for lp in f.natural_loops() if any(c.name() == 'next' and c.bb in lp[1] and 'arg1' in vexpr(f, c.args[0]) for c in f.calls())]
+    if not loops:
+        raise AnchorMissing('the walk over the diagnostics in into_updated')
+    head = max(loops, key=lambda lp: len(lp[1]))[0]
+    rets = [b for b in f.return_blocks()]
+    if must_pass(f, 0, rets, [head]):
+        r.ok('into_updated returns only after walking all diagnostics (no exit before the walk)')
+    else:
+        open_blocks = f.reachable(0, blocked=[head])
+        bad = [b for b in rets if b in open_blocks]
+        import guards as _g
+        r.finding('levels-not-updated-on-some-path', f.span_of(f.blocks[bad[0]]['t'].get('sp')) if bad else f.span,
+                  'into_updated can return without walking the diagnostics (under %s): allow attributes of elements are never consulted on that path' % (_g.guard_set(prog, f, bad[0]) if bad else '?'))
+    # the walk looks every lint up: the element lookup is inside the loop, behind nothing but the lint arm and the presence of a scope
+    body = max(loops, key=lambda lp: len(lp[1]))[1]
+    finds = [c for c in f.calls() if c.name() in ('find_element', 'find_element_with_scope', 'find_node') and c.bb in body and not f.blocks[c.bb].get('cleanup')]
+    if finds:
+        r.ok('the element a lint belongs to is looked up inside the walk (%d lookup site(s))' % len(finds))
+    else:
+        r.finding('element-not-looked-up', f.span, 'into_updated no longer looks up the element a lint belongs to while walking the diagnostics')
+    r.floor(2)
+
+
 def run(ctx):
     prog = ctx.prog
     ctx.run_rule('C13.1a', 'T1', 'Diagnostic.level written only by new and, with Allowed, inside the Lint arm of into_updated', levels.r_level_writers, prog)
@@ -260,6 +288,7 @@ def run(ctx):
     ctx.run_rule('C13.2', 'T3', 'every element-related lint records the scoped identifier of its element', r_lints_record_owner, prog)
     ctx.run_rule('C13.3', 'T6', 'declared case-insensitivity of --allow is implemented', r_cli_case_insensitive, prog)
     ctx.run_rule('C13.4', 'T1', 'suppressions are consulted only by into_updated, which only rewrites levels', r_non_interference, prog)
+    ctx.run_rule('C13.8', 'T2', 'every lint is looked up: no return before the walk over the diagnostics', r_every_lint_is_looked_up, prog)
     ctx.run_rule('C13.6', 'T10', 'file-level allow is looked up by the full path of the lint\'s span', r_file_allow_lookup, prog)
     ctx.run_rule('C13.5', 'T5', 'contained elements inherit their parent\'s attributes', r_contained_inherit_attributes, prog)
     ctx.run_rule('C13.7', 'T6', 'allow is accepted on every element kind that can own the scope of a lint', r_allow_accepted_where_lints_are_scoped, prog)
